@@ -187,6 +187,8 @@ def const_eval(node):
 
 
 def check(ctx):
+    ctx.exhaustive = True
+    ctx.bounds.append("loops unrolled once in path enumeration; the check_body_size table enumerates its abstract domain completely")
     ctx.rule("R07.1", "check_body_size decision table equals the reference (abort before stream, strict comparisons, abort trace shape)")
     ctx.rule("R07.2", "every body-buffer append is immediately followed by check_body_size; early check precedes the headers hook")
     ctx.rule("R07.3", "streamed chunks: one send per chunk in order, stored only under store_streamed_bodies, buffer cleared before late replay")
